@@ -1578,3 +1578,36 @@ Definition run_on_input (fx : fixes) (sts : list opstate) (input : table)
 
 Lemma input_unchanged fx sts input : fst (run_on_input fx sts input) = input.
 Proof. reflexivity. Qed.
+
+(* ------------------------------------------------------------ operation lists *)
+
+(* A list is run strictly left to right and every operation sees nothing but the
+   table its predecessor returned (tables are positional: columns and rows in
+   order, no row labels): the result of  ops1 ++ ops2  is the result of ops2 on
+   the result of ops1, and a failure of ops1 is the failure of the whole list. *)
+Lemma run_operations_app fx : forall s1 s2 t,
+  snd (run_operations fx (s1 ++ s2) t)
+  = match snd (run_operations fx s1 t) with
+    | Ok t1 => snd (run_operations fx s2 t1)
+    | Exn e => Exn e
+    end.
+Proof.
+  induction s1 as [|st s1 IH]; intros s2 t; cbn [app run_operations snd]; [reflexivity|].
+  destruct (do_op fx st (prep_data t)) as [st' o]. destruct o as [t1|e]; [|reflexivity].
+  destruct (wfb (post_proc_data t1)); [|reflexivity].
+  specialize (IH s2 (post_proc_data t1)).
+  destruct (run_operations fx (s1 ++ s2) (post_proc_data t1)) as [r1 o1].
+  destruct (run_operations fx s1 (post_proc_data t1)) as [r2 o2]. cbn [snd] in *. exact IH.
+Qed.
+
+(* one operation through the dispatcher = n/a -> NaN, the operation, NaN -> n/a *)
+Lemma run_operations_one fx st t :
+  snd (run_operations fx [st] t)
+  = match snd (do_op fx st (prep_data t)) with
+    | Ok t1 => if wfb (post_proc_data t1) then Ok (post_proc_data t1) else Exn Unmodelled
+    | Exn e => Exn e
+    end.
+Proof.
+  cbn [run_operations]. destruct (do_op fx st (prep_data t)) as [st' o]. cbn [snd].
+  destruct o as [t1|e]; [|reflexivity]. destruct (wfb (post_proc_data t1)); reflexivity.
+Qed.
